@@ -45,7 +45,11 @@ Inductive rpc :=
 | RUnlock        (* restart_count += 1; serial: release the lock *)
 | RDone.
 
-Inductive wpc := WPoll | WNoticed | WRestart (r : rpc) | WDone.
+(* ProcessWatcher.run():  WPoll = `self.popen_obj.poll()` (does not look at the stop flag);
+   WWait = `self.stopped_event.wait(timeout=0.1)` (returns on the flag, else times out and polls again);
+   WNoticed = the child is dead: `if not self.stopped_event.is_set() and callback` - the flag is read AGAIN;
+   each is a separate step: there is no lock around them, stop() of the watcher can fall in between. *)
+Inductive wpc := WPoll | WWait | WNoticed | WRestart (r : rpc) | WDone.
 Inductive mpc :=
 | MIdle | MFlag (* with lock: if _is_trick_stopping: return; set *) | MCapture (* process_watcher = self.process_watcher *)
 | MStop (w : option nat) (r : rpc) (* self._stop_process(); w = the captured watcher *)
@@ -196,9 +200,8 @@ Section Variant.
         | None => None
         | Some w =>
             match w_pc w with
-            | WPoll => if w_stopped w then Some (set_wpc s i WDone)
-                       else if child_alive s (w_child w) then None       (* keeps polling *)
-                       else Some (set_wpc s i WNoticed)
+            | WPoll => if child_alive s (w_child w) then Some (set_wpc s i WWait) else Some (set_wpc s i WNoticed)
+            | WWait => if w_stopped w then Some (set_wpc s i WDone) else Some (set_wpc s i WPoll)
             | WNoticed => if w_stopped w then Some (set_wpc s i WDone) else Some (set_wpc s i (WRestart RLock))
             | WRestart RDone => Some (set_wpc s i WDone)
             | WRestart r => match rstep (TW i) s r with
@@ -247,6 +250,32 @@ Section Variant.
   Definition watcher_live (w : watcher) : bool :=
     match w_pc w with WDone => false | _ => negb (w_stopped w) end.
 End Variant.
+
+(* ---- a watcher WITHOUT the second look at its stop flag (kept for a refutation) ----
+   The flag is tested only in the loop head / wait (WWait); when poll() then reports the child dead the
+   termination callback runs at once.  This is the shape of `while self.should_keep_running(): if poll() is
+   not None: break; wait(0.1)` followed by an unguarded callback. *)
+Definition rs_step_norecheck (serial restart_on_exit : bool) (kill_after : N) (s : state) (l : label) : option state :=
+  match l with
+  | WStep i =>
+      match nth_error (watchers s) i with
+      | Some w =>
+          match w_pc w with
+          | WPoll => if child_alive s (w_child w) then Some (set_wpc s i WWait)
+                     else Some (set_wpc s i (WRestart RLock))
+          | _ => rs_step serial restart_on_exit kill_after s l
+          end
+      | None => None
+      end
+  | _ => rs_step serial restart_on_exit kill_after s l
+  end.
+
+Definition restart_lts_norecheck (serial restart_on_exit : bool) (kill_after : N) : lts :=
+  {| St := state; Lbl := label; init := init_state restart_on_exit;
+     step := rs_step_norecheck serial restart_on_exit kill_after |}.
+
+Fixpoint count_trigger (tr : list label) : nat :=
+  match tr with [] => O | Trigger :: t => S (count_trigger t) | _ :: t => count_trigger t end.
 
 (* ---- views used by the statements about the repaired protocol ---- *)
 (* where thread t currently is inside _restart_process / _stop_process (None: not inside) *)
